@@ -55,3 +55,52 @@ def run(ctx):
                                 {"site": "_check_types", "what": "after-infer"}, observed=steps[2])
         cases.append(case); obs.append({"steps": steps}); reqs.append(case)
     ctx.compare("graphs", cases, obs, reqs)
+    # the same, on graph *objects* that do not come straight from the constructor: a component added through
+    # graph.nodes / graph.edges afterwards; an Output that was given another node's type dictionary object
+    import nir
+    from core import impl_construct, quiet
+    for i in range(ctx.n(60)):
+        g, truth, erased = gen.consistent_graph(rng, max_nodes=5)
+        how = "add_component" if i % 2 == 0 else "aliased_output_type"
+        case = {"op": "edited_graph", "graph": g, "edit": how}
+        ctx.case(case); ctx.count("edited_" + how)
+        try:
+            graph = impl_construct(g)
+        except Exception:
+            ctx.count("construct_rejected"); continue
+        want = dict(truth)
+        if how == "add_component":
+            g2, truth2, _ = gen.consistent_graph(rng, max_nodes=4)
+            ren = lambda x: "z_" + x
+            case["added"] = {"nodes": [[ren(n), r] for n, r in g2["nodes"]], "edges": [[ren(a), ren(b)] for a, b in g2["edges"]]}
+            try:
+                for n, r in g2["nodes"]:
+                    graph.nodes[ren(n)] = impl_construct(r)
+            except Exception:
+                ctx.count("construct_rejected"); continue
+            for a, b in g2["edges"]:
+                graph.edges.append((ren(a), ren(b)))
+            want.update({ren(k): v for k, v in truth2.items()})
+        else:
+            # Output(other.output_type): a legal Types dictionary -- and the very object the other node holds
+            outs = [n for n, r in g["nodes"] if r["type"] == "Output"]
+            others = [n for n, r in g["nodes"] if r["type"] not in ("Output", "Input") and graph.nodes[n].output_type is not None
+                      and graph.nodes[n].output_type.get("output") is not None]
+            if not outs or not others:
+                continue
+            o, src = rng.choice(outs), rng.choice(others)
+            case["output"] = o; case["shares_type_dict_of"] = src
+            graph.nodes[o] = nir.Output(graph.nodes[src].output_type)
+        try:
+            with quiet():
+                graph.infer_types()
+        except Exception as e:  # noqa
+            ctx.violate(case, "infer_types raised on a consistent graph (edited after construction)",
+                        {"site": "infer_types", "what": "raised", "edit": how}, observed=f"{type(e).__name__}: {e}")
+            continue
+        got = types_of(graph)
+        bad = {n: {"got": list(got.get(n, (None, None))), "want": [ti, to]} for n, (ti, to) in want.items()
+               if got.get(n) != ({"input": ti}, {"output": to})}
+        if bad:
+            ctx.violate(case, "inferred types differ from the fully annotated graph (graph edited after construction)",
+                        {"site": "infer_types", "what": "types", "edit": how}, observed=dict(list(bad.items())[:4]))
